@@ -49,6 +49,61 @@ let out_curves (c : float SlurryCalc.curves) : string =
          out_list "I.graded_Cvs_im" i.SlurryCalc.ic_graded_Cvs_im; out_list "I.graded_Cvt_im" i.SlurryCalc.ic_graded_Cvt_im;
          out_ldv "LDV" c.SlurryCalc.c_LDV; out_ldv "LDV85" c.SlurryCalc.c_LDV85]
 
+(* ---- Excel: abstract workbooks on the wire ---- *)
+let coq_string (s : string) : String.string =
+  let n = Stdlib.String.length s in
+  let rec go i acc = if i < 0 then acc else
+    let c = Char.code (Stdlib.String.get s i) in
+    let b k = (c lsr k) land 1 = 1 in
+    go (i - 1) (String.String (Ascii.Ascii (b 0, b 1, b 2, b 3, b 4, b 5, b 6, b 7), acc)) in
+  go (n - 1) String.EmptyString
+let unhex (h : string) : string =
+  if h = "-" then "" else
+  Stdlib.String.init (Stdlib.String.length h / 2) (fun i -> Char.chr (int_of_string ("0x" ^ Stdlib.String.sub h (2 * i) 2)))
+let hex (s : string) : string =
+  if s = "" then "-" else Stdlib.String.concat "" (Stdlib.List.init (Stdlib.String.length s) (fun i -> Printf.sprintf "%02x" (Char.code (Stdlib.String.get s i))))
+let get_str a = coq_string (unhex (next a))
+let get_cell a : float Excel.cell =
+  match next a with
+  | "N" -> Excel.CNum (get_num a)
+  | "T" -> Excel.CStr (get_str a)
+  | _ -> Excel.CBlank
+let get_workbook a : float Excel.workbook =
+  let ns = get_int a in
+  Stdlib.List.init ns (fun _ ->
+    let title = get_str a in
+    let nn = get_int a in
+    let names = Stdlib.List.init nn (fun _ ->
+      let nm = get_str a in
+      match next a with
+      | "S" -> (nm, Excel.Single (get_cell a))
+      | _ -> let nr = get_int a in let nc = get_int a in
+             (nm, Excel.Range (Stdlib.List.init nr (fun _ -> Stdlib.List.init nc (fun _ -> get_cell a))))) in
+    { Excel.s_title = title; s_names = names })
+let exn_name (e : Excel.exn) = match e with
+  | Excel.KeyError -> "KeyError" | Excel.AttributeError -> "AttributeError" | Excel.TypeError -> "TypeError"
+  | Excel.ValueError -> "ValueError" | Excel.StopIteration -> "StopIteration" | Excel.IndexError -> "IndexError"
+  | Excel.ZeroDivisionError -> "ZeroDivisionError"
+let ostr (s : String.string) = "s:" ^ hex (ocaml_string s)
+let dump_pipeline (p : float Excel.apipeline) : string =
+  let secs = Stdlib.List.map (fun s -> match s with
+    | Excel.APipe q -> cat ["PIPE"; ostr q.Excel.pp_name; out_num q.Excel.pp_d; out_num q.Excel.pp_L; out_num q.Excel.pp_K; out_num q.Excel.pp_z]
+    | Excel.APump q ->
+      let rows = Stdlib.List.sort compare (Stdlib.List.map (fun ((f, h), pw) -> (f, h, pw)) q.Excel.pu_curve) in
+      let drv = (match q.Excel.pu_driver with
+        | None -> "NODRIVER"
+        | Some (nm, cv) -> cat (["DRIVER"; ostr nm; string_of_int (Stdlib.List.length cv)] @
+                                Stdlib.List.concat_map (fun (x, y) -> [out_num x; out_num y]) (Stdlib.List.sort compare cv))) in
+      cat (["PUMP"; ostr q.Excel.pu_name; out_num q.Excel.pu_impeller; out_num q.Excel.pu_suction; out_num q.Excel.pu_disch;
+            out_num q.Excel.pu_speed; ostr q.Excel.pu_limited; out_num q.Excel.pu_gear; out_num q.Excel.pu_avail;
+            string_of_int (Stdlib.List.length rows)] @ Stdlib.List.concat_map (fun (f, h, pw) -> [out_num f; out_num h; out_num pw]) rows @ [drv]))
+    p.Excel.pl_secs in
+  let s = p.Excel.pl_slurry in
+  cat ([ostr p.Excel.pl_name; string_of_int (Stdlib.List.length secs)] @ secs @
+       ["SLURRY"; ostr s.Excel.sl_name; out_num s.Excel.sl_Dp; out_num (s.Excel.sl_d50 /. 1000.0); ostr s.Excel.sl_fluid;
+        out_num s.Excel.sl_Cv; out_num s.Excel.sl_rhos; out_num s.Excel.sl_rhoi;
+        out_num (s.Excel.sl_d50 /. s.Excel.sl_d15); out_num (s.Excel.sl_d85 /. s.Excel.sl_d50)])
+
 let dispatch (name : string) (a : string array) : string =
   pos := 0;
   match name with
@@ -154,6 +209,22 @@ let dispatch (name : string) (a : string array) : string =
      | OpPoint.Ok r -> "root " ^ out_num r
      | OpPoint.OperatingPointError -> "OperatingPointError"
      | OpPoint.ValueError -> "ValueError") ^ " " ^ out_list "visited" vis
+  | "Excel.load" ->
+    let wb = get_workbook a in
+    (match Excel.load fN wb with
+     | Excel.ROk p -> "loaded " ^ dump_pipeline p
+     | Excel.RInvalid -> "invalid"
+     | Excel.ROther e -> "other " ^ exn_name e)
+  | "File.clean" ->
+    let n = get_int a in let s = Stdlib.List.init n (fun _ -> z_of_int (get_int a)) in
+    let m = get_int a in let e = Stdlib.List.init m (fun _ -> z_of_int (get_int a)) in
+    cat (Stdlib.List.map (fun z -> string_of_int (int_of_z z)) (FileName.clean s e))
+  | "File.stored" ->
+    let opt = next a in
+    let rd () = let n = get_int a in Stdlib.List.init n (fun _ -> z_of_int (get_int a)) in
+    let f = if opt = "none" then None else Some (rd ()) in
+    let pl = rd () in let ts = rd () in
+    cat (Stdlib.List.map (fun z -> string_of_int (int_of_z z)) (FileName.stored_basename f pl ts))
   | "Fracs.create_fracs" ->
     let g = get_pairs a in
     let dp = get_num a in let nu = get_num a in let rhol = get_num a in let rhos = get_num a in
